@@ -603,7 +603,9 @@ func (i *Interp) member(bp *place, key V, forStore bool, underStore bool) *place
 		case KStr:
 			if arrMethods[key.S] {
 				if forStore {
-					un("store to a method name of an array")
+					// a store addresses the member, not the method: refused like any other
+					// member of a value that cannot hold members (C11)
+					return &place{missing: true, parent: bp, key: key}
 				}
 				return i.method(bp, bv, key.S)
 			}
@@ -626,7 +628,9 @@ func (i *Interp) member(bp *place, key V, forStore bool, underStore bool) *place
 		if key.K == KStr {
 			if strMethods[key.S] {
 				if forStore {
-					un("store to a method name of a string")
+					// a store addresses the member, not the method: refused like any other
+					// member of a value that cannot hold members (C11)
+					return &place{missing: true, parent: bp, key: key}
 				}
 				return i.method(bp, bv, key.S)
 			}
@@ -637,7 +641,9 @@ func (i *Interp) member(bp *place, key V, forStore bool, underStore bool) *place
 		if key.K == KStr {
 			if numMethods[key.S] {
 				if forStore {
-					un("store to a method name of a number")
+					// a store addresses the member, not the method: refused like any other
+					// member of a value that cannot hold members (C11)
+					return &place{missing: true, parent: bp, key: key}
 				}
 				return i.method(bp, bv, key.S)
 			}
